@@ -1,6 +1,6 @@
 (* Props/C13.v -- property C13: UAC INVITE: responses map deterministically to early dialogs, sessions, failure *)
 From Coq Require Import List NArith Bool.
-From EZK Require Import Gen.Tables Lib.Bytes Model.C13 Proofs.C13 Model.C13q Proofs.C13q.
+From EZK Require Import Model.Forms8 Proofs.Forms8 Gen.Tables Lib.Bytes Model.C13 Proofs.C13 Model.C13q Proofs.C13q.
 Import ListNotations.
 Open Scope N_scope.
 
@@ -83,3 +83,18 @@ Example C13_example :
   [ToCallerProvisional; ToCallerEarly (B"a"); ToCallerEarly (B"b"); ForwardToEarly (B"a") false;
    ForwardToEarly (B"b") true; ToCallerSession (B"c"); Ignored; Ignored].
 Proof. vm_compute. reflexivity. Qed.
+
+(* "each forked To-tag getting its own session ... completion 64*T1 after the first 2xx": the Accepted state lasts 64*T1 on every
+   transport, so a 2xx of another fork inside that window is handed over over TCP as over UDP; with a zero timer on reliable
+   transports it would be dropped *)
+Theorem C13_timer_m_guard : timer_m_any_transport = true.
+Proof. reflexivity. Qed.
+
+Theorem C13_timer_m_every_transport : timer_m_any_transport = true -> forall reliable, timer_m reliable = tsx_timeout_factor * T1_ms.
+Proof. exact timer_m_here. Qed.
+
+Theorem C13_fork_inside_window_delivered : forall reliable d, d < tsx_timeout_factor * T1_ms -> fork_2xx_delivered_form true reliable d = true.
+Proof. exact fork_inside_window. Qed.
+
+Theorem C13_timer_m_zero_refuted : forall d, fork_2xx_delivered_form false true d = false.
+Proof. exact fork_lost_on_reliable. Qed.
